@@ -1,5 +1,5 @@
 SPECIFICATION Spec
-CONSTANTS ThreadsC = {0, 1, 8}  NLpC = 3  OwnerOf <- D2_Owner  InitEv <- D2_Init  Trans <- D2_Trans  MaxMsg = 16  CkptEvery = 1  MaxGvt = 0
+CONSTANTS ThreadsC = {0, 1, 8}  NLpC = 3  OwnerOf <- D2_Owner  InitEv <- D2_Init  Trans <- D2_Trans  MaxMsg = 16  CkptEvery = 1  MaxGvt = 0  RecordSched = FALSE
 INVARIANT NoCheckFails
 INVARIANT PoolSufficient
 INVARIANT C01_FinalEqualsSequential
